@@ -111,6 +111,31 @@ func labRace(e labEnv) {
 			_, _ = common.TracerouteParallel(context.Background(), d, pp)
 			tags["udp_parallel"]++
 		}
+		// ---- UDP over IPv6, several runs at once (the queries of one request, overlapping requests): every run has its own
+		// driver, configuration and handles; whatever else the senders share inside the package is shared without a lock.
+		// The runs differ in their last TTL, i.e. in the longest payload they build (IPv6 probes carry the TTL in the payload
+		// length), and each repetition asks for longer ones than the process has built before.
+		{
+			l6 := net.ParseIP("2001:db8::2")
+			t6 := net.ParseIP("2001:db8:1::7")
+			var wg sync.WaitGroup
+			start := make(chan struct{})
+			for k := 0; k < 4; k++ {
+				wg.Add(1)
+				go func(k int) {
+					defer wg.Done()
+					last := uint8(6 + 6*rep + 2*k)
+					tp6 := common.TracerouteParams{MinTTL: 1, MaxTTL: last, TracerouteTimeout: 10 * time.Millisecond, PollFrequency: 2 * time.Millisecond, SendDelay: 100 * time.Microsecond}
+					cfg := udp.NewUDPv4(t6, 33434, tp6.MinTTL, tp6.MaxTTL, tp6.SendDelay, tp6.TracerouteTimeout, false)
+					d := udp.VerifNewDriver(cfg, l6, uint16(41000+k), nullSink{}, &rawSource{})
+					<-start
+					_, _ = common.TracerouteParallel(context.Background(), d, common.TracerouteParallelParams{TracerouteParams: tp6})
+				}(k)
+			}
+			close(start)
+			wg.Wait()
+			tags["udp6_concurrent_runs"]++
+		}
 		// ---- SACK
 		{
 			c := drvCfg{variant: vSack, local: l4[:], target: t4[:], sport: 50123, dport: 443, loosen: true, initSeq: 0xfffffff0, initAck: 77}
